@@ -8,7 +8,6 @@ import (
 	"github.com/nyaruka/gocommon/dates"
 	"github.com/nyaruka/gocommon/i18n"
 	"github.com/nyaruka/gocommon/jsonx"
-	"github.com/nyaruka/gocommon/stringsx"
 	"github.com/nyaruka/gocommon/uuids"
 	"github.com/nyaruka/goflow/assets"
 	"github.com/nyaruka/goflow/envs"
@@ -73,7 +72,7 @@ func (r *run) Events() []flows.Event                { return r.events }
 func (r *run) Results() flows.Results { return r.results }
 func (r *run) SaveResult(result *flows.Result) (*flows.Result, bool) {
 	// truncate value if necessary
-	result.Value = stringsx.Truncate(result.Value, r.session.Engine().Options().MaxResultChars)
+	result.Value = utils.Truncate(result.Value, r.session.Engine().Options().MaxResultChars)
 
 	r.modifiedOn = dates.Now()
 	r.legacyExtra.addResult(result)
@@ -329,7 +328,7 @@ func (r *run) EvaluateTemplateText(template string, escaping excellent.Escaping,
 		log(events.NewWarning(w))
 	}
 	if truncate {
-		value = stringsx.TruncateEllipsis(value, r.Session().Engine().Options().MaxTemplateChars)
+		value = utils.TruncateEllipsis(value, r.Session().Engine().Options().MaxTemplateChars)
 	}
 	return value, err == nil
 }
